@@ -1,11 +1,11 @@
 """C13 An interrupted encryption never leaves a file that verifies."""
 from .common import combined
 LEVEL = 'other'
-RULES = ('R13.a', 'R13.b', 'R13.c', 'R13.d', 'R02.b', 'R08.b', 'S-CMP')
+RULES = ('R13.a', 'R13.b', 'R13.c', 'R13.d', 'R02.b', 'R08.b', 'S-CMP', 'R05.e')
 
 
 def run(prog, rec, tier):
-    combined(prog, rec, tier, RULES, driver=('layout',), hmac=('scmp',),
+    combined(prog, rec, tier, RULES, driver=('layout', 'reader'), hmac=('scmp',),
              explanation='From the ordered write list of execute_encrypt for every T: after the body exactly one write reaches the output, '
              'it is the tag at offset 10, it follows the hash of [48,EOF), nothing follows it but close; every earlier write into '
              '[10,48) is all-zero. Hence every proper prefix of the write sequence leaves a zero or partial tag. The tag compare is '
